@@ -26,6 +26,9 @@ FORMAL = {'N': 'North', 'E': 'East', 'S': 'South', 'W': 'West'}
 RANKS = '23456789TJQKA'
 
 
+# areas of the pure core whose TRANSLATION (Generated/PyCore.lean) is run next to the real code in this check
+TRANSLATED_AREAS = ('net',)
+
 def hx(s):
     b = s if isinstance(s, bytes) else s.encode('utf-8')
     return b.hex() if b else '-'
